@@ -122,11 +122,19 @@ func c20One(c c20Case, repeat int) (res c20Res) {
 	for i := range infos {
 		res.HTs = append(res.HTs, int(infos[i].HandlerType()))
 	}
+	// the results of ALL calls are inspected only after the last call - and after one more call on a small other input (a hot-plug round):
+	// what Normalize returned must not change when it is called again
+	var kept [][]Device
 	for k := 0; k < repeat; k++ {
 		// a fresh copy per call: Normalize must not depend on, or disturb, the caller's slice
 		in := make([]DeviceInfo, len(infos))
 		copy(in, infos)
-		devs := Normalize(in)
+		kept = append(kept, Normalize(in))
+	}
+	if len(infos) > 0 {
+		Normalize([]DeviceInfo{{Name: "hotplug", Phys: "verif-hotplug-location", CapableTypes: infos[0].CapableTypes}})
+	}
+	for _, devs := range kept {
 		run := make([]c20Dev, 0, len(devs))
 		for _, d := range devs {
 			od := c20Dev{Phys: c20Bytes(d.Phys), IDs: []int{}, DType: int(d.DeviceType)}
